@@ -35,21 +35,24 @@ func init() {
 		Level: "exploration",
 		Rule: "each case is one seeded history on the real app (4-8 validators, 3 EVM chains of which one is never activated, 3 users, 2 contract senders): " +
 			"phase A = first ten blocks (snapshot without accounts, no performance records, partial registration/fees), phase B = governance rates, chain activation, first valset delivered, " +
-			"phase C = N random operations (quick 110, thorough 420): job executions (tx / contract path, MEV or not, 2 senders per kind), estimates by all or a minority, signatures, delivery and error reports on messages in any state, evidence, fee upserts with ties, trait toggles, key rotation, snapshot builds, rate changes, skyway send+batch. " +
-			"After every block / direct call: assignment of every new message or batch, outcome of the request, fees of newly elected estimates, relay offer for every validator x chain (keeper function and gRPC handler), and what-if requests on forks (5 block times). " +
+			"phase C = N random operations (quick 130, thorough 420): job executions (tx / contract path, MEV or not, 2 senders per kind), estimates by all or a minority, signatures, delivery and error reports on messages in any state, evidence, fee upserts with ties, trait toggles, key rotation, snapshot builds, rate changes, skyway send+batch; " +
+			"at fixed steps (every 45th) a scripted fee-gap scenario: the inputs of the fee computation of a pending fee-paying message are made unusable through public paths (assignee upserts multiplier 0 / an overflowing multiplier; governance sets a rate to 0 / to a non-number), ALL snapshot validators estimate it and a companion message of another assignee in one block, the inputs are repaired, one more end-blocker pass. " +
+			"After every block / direct call: assignment of every new message or batch, outcome of the request, fees of newly elected estimates (present and equal to the reference), fees present on every fee-paying message offered on an elected estimate, relay offer for every validator x chain (keeper function and gRPC handler), and what-if requests on forks (5 block times). " +
 			"distinct_nontrivial = distinct abstract queues (>= 2 messages; kinds, sender / assignee indices, estimate and report state) on which the relay offer was decided; evaluations = assignment decisions + request outcomes + fee triples + (validator, message) relay decisions",
 		Assumptions: []string{
 			"eligibility is decided at assignment time against the tables the request saw (operations that assign are kept out of blocks with h%10==0, where end-blockers add performance records / rebuild the snapshot; anything assigned while tables moved is checked against the union and counted as assign_checked_loose)",
 			"'an older message from the same sender is still pending' = an older logic call with the same sender bytes is in the queue without delivery or error report (a reported but not yet attested older message does not block; occurrences are counted in relayable_while_older_same_sender_reported_but_unattested)",
 			"validators never register two accounts on the same chain",
-			"multipliers and rates have at most 18 decimals and fees fit into uint64",
+			"multipliers and rates have at most 18 decimals and fees fit into uint64; when the reference fees do not exist (overflow, rate that is no number) only the PRESENCE of fees on an elected fee-paying message is decided, and an estimate that is simply not elected while the fee inputs are unusable is not flagged (fails closed)",
+			"'has a relayer fee' = a fee record for the chain is on file (a multiplier of 0 is a record; the assigner treats it the same way)",
 			"performance-record values (uptime, success rate) arise only from flows the harness can drive (no missed-block simulation); which eligible validator wins is not part of the statement",
 		},
-		Exhaustive:  func(string) bool { return false },
-		Cases:       cases,
-		Run:         runHistory,
-		MinCounters: []string{"assign_checked", "whatif_assign_checked", "assign_checked_mev", "noeligible_fail_checked", "relay_queries", "relay_state/relayable", "relay_state/sender", "relay_state/estimate", "relay_state/reported", "relay_state/valset", "discr_sender_blockers_all_other_assignee", "discr_sender_blockers_all_unestimated", "fee_checked", "fee_ceil_discriminating", "assign_kind/skyway-batch", "assign_kind/valset"},
-		Workers:     16,
-		TimeoutS:    900,
+		Exhaustive: func(string) bool { return false },
+		Cases:      cases,
+		Run:        runHistory,
+		MinCounters: []string{"assign_checked", "whatif_assign_checked", "assign_checked_mev", "noeligible_fail_checked", "relay_queries", "relay_state/relayable", "relay_state/sender", "relay_state/estimate", "relay_state/reported", "relay_state/valset", "discr_sender_blockers_all_other_assignee", "discr_sender_blockers_all_unestimated", "fee_checked", "fee_ceil_discriminating", "assign_kind/skyway-batch", "assign_kind/valset",
+			"fee_unavailable_at_quorum", "fee_unavailable_elected_after_repair", "relay_offered_fee_payer_with_fees"},
+		Workers:  16,
+		TimeoutS: 900,
 	})
 }
